@@ -106,7 +106,8 @@ func (e *PathMatchExpression) expandPaths(sub *PathMatchExpression) {
 	for i, dest := range e.paths {
 		for j, src := range sub.paths {
 			k := (i * len(sub.paths)) + j
-			expanded[k] = append(dest, src...)
+			// dest is shared by every alternative, do not append in place
+			expanded[k] = append(append(make(segments, 0, len(dest)+len(src)), dest...), src...)
 		}
 	}
 	e.paths = expanded
